@@ -82,6 +82,8 @@ func TestC20Enum(t *testing.T) {
 			plans = append(plans, []int{i, rapid.IntRange(0, C-1).Draw(rt, "pairJ")})
 		}
 		failBuild := rapid.SampledFrom([]int{0, 0, 0, 1, 2}).Draw(rt, "failBuild")
+		// what a failing cloud call answers: an error (with a code), or an answer of unexpected shape
+		code := rapid.SampledFrom([]string{"", "", "Throttling", "ValidationError", "shape:no-reservation", "shape:empty-reservation"}).Draw(rt, "code")
 		log := pw.Log[:len(pw.Log)-1]
 		for _, plan := range plans {
 			rapid.SyncTest(rt, func(rt *rapid.T) {
@@ -91,7 +93,7 @@ func TestC20Enum(t *testing.T) {
 				}
 				var fs []sim.Fault
 				for _, i := range plan {
-					fs = append(fs, sim.Fault{Kind: "", Nth: i})
+					fs = append(fs, sim.Fault{Kind: "", Nth: i, Code: code})
 				}
 				tw.Apply(world.Action{Op: "fault", Faults: fs, N: failBuild})
 				rec, _ := tw.Apply(world.Action{Op: "scan", Flag: true})
